@@ -819,7 +819,9 @@ Definition delta_ok (sz : osize) (d : delta) : bool :=
                         | Some s => s =? Z.of_nat (range_len (snd kr))
                         | None => true
                         end) (d_upd d)
-  && (Z.of_nat (length (d_del d)) <=? i32_max) && (Z.of_nat (length (d_buf d)) <=? i32_max).
+  && forallb (fun kr => negb (smem (fst kr) (d_del d))) (d_upd d)      (* no key both deleted and updated *)
+  && (Z.of_nat (length (d_del d)) <=? i32_max) && (Z.of_nat (length (d_upd d)) <=? i32_max)
+  && (Z.of_nat (length (d_buf d)) <=? i32_max).
 
 (* every item of S whose type has a pre-agreed size has that size *)
 Definition sizes_respected (sz : osize) (S : rawsnap) : bool :=
